@@ -3,12 +3,12 @@
 #   selftest/run_on_seed.sh <seed dir name> <check id> [tier]
 # (semantiva is imported from the worktree because PYTHONPATH precedes the editable install)
 HERE="$(cd "$(dirname "$0")/.." && pwd)"
-WT=/var/tmp/seedtest
+WT="${SEEDWT:-/var/tmp/seedtest}"
 [ -d "$WT" ] || git -C /repo worktree add --detach "$WT" HEAD >/dev/null 2>&1
 cd "$WT" && git checkout -q --detach "$(git -C /repo rev-parse HEAD)" && git checkout -q -- . && git clean -fdq
 git apply "$HERE/seeded/$1/patch.diff" || { echo "patch does not apply"; exit 2; }
 # evidence and replay files of a seeded run go to a scratch directory, not to /verif/evidence
-mkdir -p /var/tmp/seed-evidence/replays
-cd "$HERE" && VERIF_EVIDENCE_DIR=/var/tmp/seed-evidence PYTHONPATH="$WT" ./check "$2" --tier "${3:-quick}"; rc=$?
+EV="${WT}-evidence"; mkdir -p "$EV/replays"
+cd "$HERE" && VERIF_EVIDENCE_DIR="$EV" PYTHONPATH="$WT" ./check "$2" --tier "${3:-quick}"; rc=$?
 cd "$WT" && git checkout -q -- .
 exit $rc
